@@ -1,0 +1,13 @@
+//go:build verif
+
+package pugjs
+
+// VerifYield, when set, is called at the interleaving points of Render / LoadTemplates that matter for template
+// loading (build tag verif only). It lets a test harness enumerate interleavings deterministically.
+var VerifYield func(point string)
+
+func verifYield(point string) {
+	if f := VerifYield; f != nil {
+		f(point)
+	}
+}
